@@ -63,10 +63,23 @@ def ordv(args, timeout=3600, env=None):
     r = subprocess.run([ORDV] + args, stdout=subprocess.PIPE, stderr=subprocess.PIPE, text=True,
                        timeout=timeout, env=e)
     if r.returncode != 0:
+        # a panic raised inside ord's own code (under /repo) while a driver was exercising it is data about the
+        # code under test, not a tool failure; panics in the harness itself stay tool failures
+        m = re.search(r"panicked at (/repo/[^\s]+?):?\n([^\n]*)", r.stderr)
+        if r.returncode == 101 and m:
+            raise UnderTestPanic(" ".join(args), m.group(1), m.group(2).strip()[:300], r.stderr[-3000:])
         sys.stdout.write(r.stdout[-3000:])
         sys.stdout.write(r.stderr[-6000:])
         raise ToolError("ordv %s failed with %d" % (" ".join(args[:2]), r.returncode))
     return r.stdout
+
+
+class UnderTestPanic(Exception):
+    """ord code panicked outside the reach of a driver's own catch_unwind."""
+
+    def __init__(self, command, where, message, stderr):
+        Exception.__init__(self, "%s: %s" % (where, message))
+        self.command, self.where, self.message, self.stderr = command, where, message, stderr
 
 
 def cached_trace(key_parts, produce):
